@@ -29,7 +29,9 @@ RULE = ('image case = one generated header (5 zenithal projections, CRPIX inside
         'of both signs, shapes 1x1..200x150, float32/float64, a few pre-existing NaN/inf pixels) and one region (circle, '
         'several circles, convex polygon, empty, whole sky) whose HEALPix cells are 0.2..5 image pixels wide, masked '
         'with negate False and True through mask_plane, mask_file (2-D, 3-D, 4-D with degenerate axes) or the MIMAS '
-        'command line; an evaluation is one output pixel compared with the oracle; non-trivial = the pixel is judged '
+        'command line; files are float32/float64 or scaled integers (BITPIX 8/16/32 with BSCALE/BZERO, with and '
+        'without a BLANK card and blank pixels; reference values = the input as astropy reads it back); an evaluation '
+        'is one output pixel compared with the oracle; non-trivial = the pixel is judged '
         '(stable cell, finite input) in an image that has both inside and outside pixels; table case = one table and '
         'one region through mask_table / mask_catalog / --maskcat, an evaluation is one row; distinct = (case hash, '
         'pixel or row)')
@@ -40,6 +42,10 @@ ASSUMPTIONS = ['oracle WCS: FITS paper II zenithal projections implemented geome
                'here is the mapping pixel/row -> position -> membership -> blanking',
                'pixels/rows within 1e-7 deg of a HEALPix cell edge are undetermined and not judged (complementarity '
                'of the two negate results and bit-identity of unblanked values are judged on every pixel)',
+               'out of domain: integer images that astropy hands over as integers (no BSCALE/BZERO, or the unsigned '
+               'BZERO=2**(n-1) convention) cannot hold NaN - the unchanged mask_file raises ValueError on them; a plain '
+               'integer image with only a BLANK card comes back from the unchanged mask_file as BITPIX 16 without '
+               'NaN; neither layout is in the workload',
                'domain: every pixel of the image has a sky position (field radius about CRVAL <= 40 deg), float data, '
                '|table dec| <= 90']
 MIN_REACH = {'MIMAS:mask_plane': 1, 'MIMAS:mask_file': 1, 'MIMAS:mask_table': 1, 'MIMAS:mask_catalog': 1,
@@ -47,7 +53,7 @@ MIN_REACH = {'MIMAS:mask_plane': 1, 'MIMAS:mask_file': 1, 'MIMAS:mask_table': 1,
 MIN_COUNTERS = {'pixels_judged': 200000, 'pixels_expected_blank': 20000, 'pixels_expected_kept': 20000,
                 'images_with_boundary': 40, 'cube_planes_compared': 10, 'rows_judged': 20000,
                 'rows_expected_removed': 2000, 'rows_expected_kept': 2000, 'rows_nonfinite': 200,
-                'empty_tables': 4, 'catalog_files': 10, 'cli_runs': 2, 'complementarity_pixels': 200000}
+                'empty_tables': 4, 'catalog_files': 10, 'integer_stored_files': 20, 'cli_runs': 2, 'complementarity_pixels': 200000}
 
 EPS = 1e-7          # degrees, undetermined band around a cell edge (DESIGN section 1 rule 2, section 5 C10)
 
@@ -152,6 +158,14 @@ def cases(seed, tier):
                         'region': {'kind': 'poly', 'centre_index': (10.0, 11.0), 'radius_px': 7.0,
                                    'angles': [10.0, 100.0, 200.0, 290.0]},
                         'dtype': 'f4' if i % 2 else 'f8', 'dims': dims, 'cli': cli, 'seed': ['t', 'file', dims, cli]})
+    # images stored as scaled integers (BITPIX 8/16/32 with BSCALE/BZERO), with and without a BLANK card
+    for i, store in enumerate(('int16', 'int32', 'uint8')):
+        for blank in (False, True):
+            for dims, cli in (('2d', False), ('3d', False), ('4d_1n', True)):
+                out.append({'kind': 'file', 'geom': dict(base, proj=PROJECTIONS[(i + blank) % 5]),
+                            'region': {'kind': 'circle', 'centre_index': (9.0, 12.0), 'radius_px': 6.0},
+                            'dtype': 'f4', 'dims': dims, 'cli': cli, 'store': store, 'blank': blank,
+                            'seed': ['t', 'intfile', store, blank, dims]})
     # cubes whose planes are one pixel high / wide (a celestial axis of length 1 must survive)
     thin = dict(base, depth=12, ratio=resol_deg(12) / 0.02)
     for i, (shape, dims) in enumerate((((1, 7), '3d'), ((1, 7), '4d_11'), ((6, 1), '3d'), ((6, 1), '4d_1n'),
@@ -182,6 +196,14 @@ def cases(seed, tier):
         g = _image_geometry(rng, shape=shp)
         out.append({'kind': 'file', 'geom': g, 'region': _region_spec(rng, g), 'dtype': str(rng.choice(['f4', 'f8'])),
                     'dims': dims, 'cli': bool(rng.random() < 0.15), 'seed': [seed, 'file', i]})
+    rint = rng_for(seed, 'c10-integer-files', tier)
+    for i in range(100 if tier == 'quick' else 1200):
+        dims = str(rint.choice(['2d', '3d', '4d_11', '4d_1n', '4d_n1', '3d_1']))
+        shp = (int(rint.integers(1, 90)), int(rint.integers(1, 90)))
+        g = _image_geometry(rint, shape=shp)
+        out.append({'kind': 'file', 'geom': g, 'region': _region_spec(rint, g), 'dtype': 'f4', 'dims': dims,
+                    'cli': bool(rint.random() < 0.15), 'store': str(rint.choice(['int16', 'int32', 'uint8'])),
+                    'blank': bool(rint.random() < 0.5), 'seed': [seed, 'intfile', i]})
     for i in range(ntab):
         n = int(rng.choice([0, 1, 2, int(rng.integers(3, 200)), int(rng.integers(200, 2001))], p=[0.04, 0.03, 0.03, 0.5, 0.4]))
         out.append({'kind': 'table', 'n': n, 'special': 'mixed' if rng.random() < 0.85 else 'masked',
@@ -292,6 +314,43 @@ def _make_data(rng, shape, dtype):
         flat[rng.integers(0, n)] = 0.0
         flat[rng.integers(0, n)] = -0.0
     return data
+
+
+_STORES = {'int16': (np.int16, -32768, 3000), 'int32': (np.int32, -2147483648, 1000000), 'uint8': (np.uint8, 255, None)}
+
+
+def _write_scaled_integer(rng, infile, hdr, full_shape, store, blank):
+    """an image stored as scaled integers: raw integers of type `store`, physical = BZERO + BSCALE * raw, optionally
+    a BLANK card with a few blank raw pixels.  Returns what was put in the file, for the evidence."""
+    from astropy.io import fits
+    itype, blankval, amp = _STORES[store]
+    if store == 'uint8':
+        raw = rng.integers(0, 250, full_shape)
+    else:
+        raw = rng.integers(-amp, amp + 1, full_shape)
+    raw.reshape(-1)[rng.integers(0, raw.size)] = 0            # a raw zero: physical value BZERO, a legitimate pixel
+    bscale = float(rng.choice([0.5, 0.25, 2.0, 0.125]))
+    bzero = float(rng.choice([100.0, -7.25, 0.0, 1000.0])) if store != 'uint8' else float(rng.choice([100.0, -16.0]))
+    if bscale == 1.0 and bzero == 0.0:
+        bscale = 0.5
+    hdu = fits.PrimaryHDU(data=raw.astype(np.float64) * bscale + bzero, header=hdr)
+    hdu.scale(store, bscale=bscale, bzero=bzero)
+    if not np.array_equal(hdu.data, raw.astype(itype)):
+        raise RuntimeError('harness: astropy did not store the raw integers that were intended')
+    nblank = 0
+    if blank:
+        nblank = min(raw.size // 6, 4)
+        idx = rng.choice(raw.size, size=nblank, replace=False)
+        hdu.data.reshape(-1)[idx] = blankval
+        hdu.header['BLANK'] = blankval
+    with warnings.catch_warnings():
+        warnings.simplefilter('ignore')
+        hdu.writeto(infile)
+        h2 = fits.getheader(infile)
+    if h2['BITPIX'] != np.dtype(itype).itemsize * 8 or h2.get('BSCALE', 1.0) != bscale or h2.get('BZERO', 0.0) != bzero \
+            or (('BLANK' in h2) != bool(blank)):
+        raise RuntimeError('harness: the integer-stored input file does not have the intended header')
+    return {'store': store, 'BSCALE': bscale, 'BZERO': bzero, 'BLANK': blankval if blank else None, 'blank_pixels': nblank}
 
 
 def _bits(a):
@@ -491,14 +550,28 @@ def _run_file(o, case, rng):
     extra = _DIMS[case['dims']]
     o.see('file_dims', case['dims'])
     full_shape = tuple(n for n, _ in reversed(extra)) + tuple(geom['shape'])
-    data = _make_data(rng, full_shape, case['dtype'])
+    store = case.get('store', 'float')
+    o.see('file_storage', store + ('+BLANK' if case.get('blank') else ''))
     d = scratch_dir()
     try:
         mim = os.path.join(d, 'region.mim')
         reg.save(mim)          # plain pickle of the object (Region.save); the region is not otherwise touched
         infile = os.path.join(d, 'in.fits')
         hdr = _header(geom, extra)
-        fits.PrimaryHDU(data=data, header=hdr).writeto(infile)
+        stored = None
+        if store == 'float':
+            data = _make_data(rng, full_shape, case['dtype'])
+            fits.PrimaryHDU(data=data, header=hdr).writeto(infile)
+        else:
+            stored = _write_scaled_integer(rng, infile, hdr, full_shape, store, bool(case.get('blank')))
+            o.count('integer_stored_files')
+            # the reference "before" image is the file as astropy reads it (physical values, NaN at BLANK pixels)
+            with warnings.catch_warnings():
+                warnings.simplefilter('ignore')
+                data = np.array(fits.getdata(infile))
+            data = data.astype(data.dtype.newbyteorder('='))
+            if data.dtype.kind != 'f' or int(np.isnan(data).sum()) != stored['blank_pixels']:
+                raise RuntimeError('harness: scaled-integer input not read back as float with NaN at BLANK pixels')
         planes_in = data.reshape((-1,) + tuple(geom['shape']))
         blank = {}
         for negate in (False, True):
@@ -555,7 +628,7 @@ def _run_file(o, case, rng):
         if orc.stable.any() and orc.inside[orc.stable].any() and (~orc.inside[orc.stable]).any():
             o.n_nontrivial += int(orc.stable.sum()) * planes_in.shape[0]
         o.sample = {'header': _hdr_summary(geom), 'dims': case['dims'], 'file_shape': list(full_shape), 'region': desc,
-                    'inside': int(orc.inside.sum()), 'cli': bool(case.get('cli'))}
+                    'inside': int(orc.inside.sum()), 'cli': bool(case.get('cli')), 'storage': stored or store}
     finally:
         shutil.rmtree(d, ignore_errors=True)
 
